@@ -130,7 +130,7 @@ Proof. exact remap_val_spec_gen. Qed.
 Print Assumptions C07_remap_val_spec_any_table.
 
 (* the table regenerated from dukebox/src/remap.rs and duke/src/tree passes the check (re-proved on
-   every run), the four rows of [known_row] being dropped fields *)
+   every run); [known_row] (C07/Spec.v) records no row today *)
 Theorem C07_table_ok : table_ok gen_table (ref_types type_defs) DT known_row = true.
 Proof. exact gen_table_ok. Qed.
 Print Assumptions C07_table_ok.
@@ -145,7 +145,7 @@ Theorem C07_row_ok_contains_th1_th2 :
   forall tb S D r, row_ok tb S D r = true ->
     (carries_ref_in S r = true -> effective_t tb r = Remapped (appropriate r)) /\
     (carries_ref_in S r = false -> effective_t tb r = Copied).
-Proof. intros tb S D r H. split; [exact (row_ok_th1 tb S D r H)|exact (row_ok_th2 tb S D r H)]. Qed.
+Proof. exact row_ok_contains_th1_th2. Qed.
 Print Assumptions C07_row_ok_contains_th1_th2.
 
 (* Th 6 for the regenerated table, any type `.remap…` may be called on *)
@@ -207,3 +207,29 @@ Print Assumptions C07_targs_carry_no_refs.
 Theorem C07_tree_example : tree_example.
 Proof. exact tree_example_holds. Qed.
 Print Assumptions C07_tree_example.
+
+(* Th 6 without the [clean] hypothesis: no row is recorded as a known finding today, so EVERY well-typed
+   class comes out of the interpreter of the regenerated table as the specification demands *)
+Theorem C07_remap_class_spec_full :
+  forall (R : remapper) (ctx : option str) (v : val),
+    has_ty type_defs (TName "ClassFile") v = true ->
+    remap_val gen_table R ctx (TName "ClassFile") v = spec_remap_val type_defs R ctx (TName "ClassFile") v.
+Proof. exact remap_class_spec_full. Qed.
+Print Assumptions C07_remap_class_spec_full.
+
+Theorem C07_remap_val_spec_full :
+  forall (R : remapper) (ctx : option str) (T : rty) (v : val),
+    deleg_ok gen_table (ref_types type_defs) T = true ->
+    has_ty type_defs T v = true ->
+    remap_val gen_table R ctx T v = spec_remap_val type_defs R ctx T v.
+Proof. exact remap_val_spec_full. Qed.
+Print Assumptions C07_remap_val_spec_full.
+
+Theorem C07_shape_and_opaque_leaves_preserved_full :
+  forall (R : remapper) (ctx : option str) (T : rty) (v v' : val),
+    deleg_ok gen_table (ref_types type_defs) T = true ->
+    has_ty type_defs T v = true ->
+    remap_val gen_table R ctx T v = Ok v' ->
+    same_shape v v' = true /\ opaques v' = opaques v.
+Proof. exact remap_val_shape_full. Qed.
+Print Assumptions C07_shape_and_opaque_leaves_preserved_full.
